@@ -88,9 +88,39 @@ def run_verus(repo, template, workdir, canary="dup", inplace=(), rlimit=None, ex
     if rlimit:
         cmd += ["--rlimit", str(rlimit)]
     cmd += list(extra_args)
-    t0 = time.time()
-    p = subprocess.run(cmd, capture_output=True, text=True, cwd=workdir)
-    wall = time.time() - t0
+    # Result memo: the generated file contains every extracted token and every specification, so identical text (and
+    # identical flags) is the identical verification problem.  Runs that hit a resource limit are never stored; VERIF_NO_CACHE=1
+    # disables it.  (Several properties share units: without this a full run re-verifies them once per property.)
+    import hashlib
+    key = hashlib.sha256(("\0".join(cmd[2:]) + "\0" + text).encode()).hexdigest()[:32]
+    cdir = os.path.join(os.path.dirname(os.path.dirname(os.path.abspath(__file__))), ".cache", "vres")
+    cpath = os.path.join(cdir, "%s_%s.json" % (unit, key))
+    memo = None
+    if os.environ.get("VERIF_NO_CACHE") != "1" and os.path.exists(cpath):
+        try:
+            memo = json.load(open(cpath))
+        except Exception:
+            memo = None
+
+    class _P:
+        pass
+    if memo:
+        p = _P()
+        p.stdout, p.stderr, p.returncode = memo["stdout"], memo["stderr"], memo["rc"]
+        wall = memo["wall"]
+    else:
+        t0 = time.time()
+        p = subprocess.run(cmd, capture_output=True, text=True, cwd=workdir)
+        wall = time.time() - t0
+        try:
+            vr0 = json.loads(p.stdout).get("verification-results", {})
+            # the main pass always carries the deliberate `ensures false` canary failures, so "has errors" is normal;
+            # what is never stored is a run that hit a resource limit or produced no per-function results
+            if vr0 and "esource limit" not in p.stderr and "rlimit" not in p.stderr and "timed out" not in p.stderr:
+                os.makedirs(cdir, exist_ok=True)
+                json.dump({"stdout": p.stdout, "stderr": p.stderr, "rc": p.returncode, "wall": wall}, open(cpath, "w"))
+        except Exception:
+            pass
     try:
         js = json.loads(p.stdout)
     except Exception:
@@ -182,7 +212,8 @@ def run_verus(repo, template, workdir, canary="dup", inplace=(), rlimit=None, ex
         "funcs": funcs,
         "wall_s": wall,
         "smt_ms": smt.get("total", 0),
-        "cmd": " ".join(cmd),
+        "cmd": " ".join(cmd) + ("   [result served from the memo of an earlier run on byte-identical generated text]" if memo else ""),
+        "memoised": bool(memo),
         "trusted": trusted_scan(text),
         "extraction": dict(gen.rules.counts),
     }
